@@ -166,6 +166,8 @@ def cmp_build(t, d, v, kw, tsig):
 
 def enc_value(v):
     """JSON-able encoding of a build value (replay decodes it)"""
+    if isinstance(v, R.Label):
+        return {"$label": [str.__str__(v), v.intvalue]}
     if isinstance(v, bool) or v is None or isinstance(v, (int, str)):
         if isinstance(v, int) and not isinstance(v, bool) and abs(v) > 1 << 53:
             return {"$int": str(v)}
@@ -187,6 +189,8 @@ def dec_value(e):
     if isinstance(e, dict):
         if "$int" in e:
             return int(e["$int"])
+        if "$label" in e:
+            return R.Label(e["$label"][0], e["$label"][1])
         if "$float" in e:
             return float.fromhex(e["$float"])
         if "$b" in e:
